@@ -267,6 +267,10 @@ type crec struct {
 	heldRead   chan struct{}
 	heldTop    chan struct{}
 	heldNew    chan struct{}
+	mu         sync.Mutex
+	curDone    <-chan struct{} // what ctx.Done() gave to the handler that is running
+	haveDone   bool
+	doneMissed atomic.Int32
 	idleAtSd   bool
 	closedPass bool
 }
@@ -278,22 +282,25 @@ type lrec struct {
 }
 
 type runner struct {
-	d           desc
-	s           *fasthttp.Server
-	mu          sync.Mutex
-	conns       []*crec
-	loops       []*lrec
-	blocks      []string
-	doneCh      <-chan struct{}
-	sdState     atomic.Int32 // 0 not called, 1 running, 2 nil, 3 err
-	cancel      context.CancelFunc
-	sdAt        time.Time
-	stuck       bool
-	unstable    bool
-	pipelined   bool
-	heldAfterSd bool
-	topHeldAtSd bool // Shutdown was called while a connection goroutine was parked at the top of its loop
-	kinds       map[string]int
+	d             desc
+	s             *fasthttp.Server
+	mu            sync.Mutex
+	conns         []*crec
+	loops         []*lrec
+	blocks        []string
+	sdState       atomic.Int32 // 0 not called, 1 running, 2 nil, 3 err
+	cancel        context.CancelFunc
+	sdAt          time.Time
+	stuck         bool
+	unstable      bool
+	pipelined     bool
+	heldAfterSd   bool
+	topHeldAtSd   bool
+	servedSinceSd bool // Serve was called since the last Shutdown call
+	lastCallLoop  bool // the last Shutdown call had listeners to close (it did not take the `s.ln == nil` shortcut)
+	everFailed    bool // some ShutdownWithContext call returned ctx.Err()
+	pendingErr    bool // ... and no later call has returned nil after going through its loop // Shutdown was called while a connection goroutine was parked at the top of its loop
+	kinds         map[string]int
 }
 
 func n(i int) string { return fmt.Sprintf("%d%%nat", i) }
@@ -305,17 +312,36 @@ func (rn *runner) handler(ctx *fasthttp.RequestCtx) {
 	}
 	rn.mu.Lock()
 	r := rn.conns[id]
-	if rn.doneCh == nil {
-		rn.doneCh = ctx.Done()
-	}
 	rn.mu.Unlock()
+	ch := ctx.Done()
+	r.mu.Lock()
+	r.curDone = ch
+	r.haveDone = true
+	r.mu.Unlock()
 	r.started.Add(1)
 	r.inHandler.Store(true)
 	cl := <-r.cmd
+	// a request in flight during a shutdown: its Done channel must have been closed by now
+	if st := rn.sdState.Load(); st == 1 || st == 3 {
+		closed := false
+		if ch != nil {
+			select {
+			case <-ch:
+				closed = true
+			default:
+			}
+		}
+		if !closed {
+			r.doneMissed.Add(1)
+		}
+	}
 	if cl {
 		ctx.SetConnectionClose()
 	}
 	ctx.SetBodyString("ok")
+	r.mu.Lock()
+	r.haveDone = false
+	r.mu.Unlock()
 	r.inHandler.Store(false)
 }
 
@@ -340,18 +366,6 @@ func (rn *runner) obs() string {
 	st, _ := fasthttp.VerifServerInt32(rn.s, "stop")
 	idle := fasthttp.VerifIdleConns(rn.s)
 	now := time.Now().Unix()
-	done := hlib.None()
-	rn.mu.Lock()
-	ch := rn.doneCh
-	rn.mu.Unlock()
-	if ch != nil {
-		select {
-		case <-ch:
-			done = hlib.Some("true")
-		default:
-			done = hlib.Some("false")
-		}
-	}
 	ls := make([]string, len(rn.loops))
 	for i, l := range rn.loops {
 		ls[i] = hlib.Tuple(hlib.Bool(l.ln.isClosed.Load()), hlib.Bool(l.returned.Load()))
@@ -370,11 +384,26 @@ func (rn *runner) obs() string {
 			}
 		}
 		closed := r.c.get(func() bool { return r.c.closes > 0 })
-		cs[i] = fmt.Sprintf("(mkCO %s %s %s %s %s)", hlib.Z(int64(r.started.Load())), hlib.Z(int64(r.c.responses())), hlib.Bool(closed),
-			hlib.Bool(r.inHandler.Load()), hlib.Z(int64(cls)))
+		dcl := 0
+		if r.inHandler.Load() {
+			r.mu.Lock()
+			ch := r.curDone
+			r.mu.Unlock()
+			dcl = 3
+			if ch != nil {
+				select {
+				case <-ch:
+					dcl = 2
+				default:
+					dcl = 1
+				}
+			}
+		}
+		cs[i] = fmt.Sprintf("(mkCO %s %s %s %s %s %s)", hlib.Z(int64(r.started.Load())), hlib.Z(int64(r.c.responses())), hlib.Bool(closed),
+			hlib.Bool(r.inHandler.Load()), hlib.Z(int64(cls)), hlib.Z(int64(dcl)))
 	}
-	return fmt.Sprintf("(mkObs %s %s %s %s %s %s %s)", hlib.Z(int64(rn.s.GetOpenConnectionsCount())), hlib.Z(int64(sv)), hlib.Bool(st == 1),
-		hlib.Z(int64(rn.sdState.Load())), done, hlib.List(ls), hlib.List(cs))
+	return fmt.Sprintf("(mkObs %s %s %s %s %s %s)", hlib.Z(int64(rn.s.GetOpenConnectionsCount())), hlib.Z(int64(sv)), hlib.Bool(st == 1),
+		hlib.Z(int64(rn.sdState.Load())), hlib.List(ls), hlib.List(cs))
 }
 
 // let everything come to rest; while Shutdown is running that includes two periods of its 100 ms ticker
@@ -437,13 +466,49 @@ func reqOf(id int) string { return fmt.Sprintf("GET /%d HTTP/1.1\r\nHost: h\r\n\
 
 func (r *crec) outstanding() int { return r.sent - int(r.started.Load()) }
 
+// bookkeeping about finished Shutdown calls
+func (rn *runner) noteSd() {
+	switch rn.sdState.Load() {
+	case 3:
+		rn.everFailed = true
+		rn.pendingErr = true
+	case 2:
+		if rn.lastCallLoop {
+			rn.pendingErr = false
+		}
+	}
+}
+
+func (rn *runner) needShutdown() bool {
+	if rn.sdState.Load() == 1 {
+		return false
+	}
+	if rn.sdState.Load() == 0 {
+		return true
+	}
+	for _, l := range rn.loops {
+		if !l.ln.isClosed.Load() {
+			return true
+		}
+	}
+	return false
+}
+
 func (rn *runner) do(o op) {
+	rn.noteSd()
 	t0 := time.Now()
 	switch o.K {
 	case "servestart":
-		if len(rn.loops) >= 2 || rn.sdState.Load() != 0 {
+		open := 0
+		for _, l := range rn.loops {
+			if !l.ln.isClosed.Load() {
+				open++
+			}
+		}
+		if len(rn.loops) >= 5 || open >= 2 || rn.sdState.Load() == 1 {
 			return
 		}
+		rn.servedSinceSd = true
 		l := &lrec{ln: newListener(), done: make(chan struct{})}
 		rn.loops = append(rn.loops, l)
 		go func() { rn.s.Serve(l.ln); l.returned.Store(true); close(l.done) }()
@@ -603,9 +668,16 @@ func (rn *runner) do(o op) {
 		rn.rest(t0)
 		rn.emit([]string{"LClientClose " + n(r.id)})
 	case "shutdown":
-		if rn.sdState.Load() != 0 {
+		if rn.sdState.Load() == 1 {
 			return
 		}
+		if rn.pendingErr && !rn.servedSinceSd {
+			// Shutdown right after a call that returned ctx.Err(), no Serve in between: `s.ln == nil`, returns nil at once whatever is still
+			// running.  The documentation rules that use out ("any operation to the Server is unavailable"); the model has it (C15_ex_reuse).
+			return
+		}
+		rn.lastCallLoop = rn.servedSinceSd
+		rn.servedSinceSd = false
 		// which connections are idle keep-alive connections right now
 		idle := fasthttp.VerifIdleConns(rn.s)
 		now := time.Now().Unix()
@@ -684,7 +756,7 @@ func runCase(d desc) hlib.Case {
 			rn.do(op{K: "releasetop"})
 		case rn.pick(func(r *crec) bool { return r.inHandler.Load() }, 0) != nil:
 			rn.do(op{K: "finish"})
-		case rn.sdState.Load() == 0:
+		case rn.needShutdown():
 			rn.do(op{K: "shutdown"})
 		default:
 			i = 64
@@ -692,9 +764,10 @@ func runCase(d desc) hlib.Case {
 	}
 	res := make([]string, len(rn.conns))
 	for i, r := range rn.conns {
-		res[i] = fmt.Sprintf("(mkCRes %s %s %s)", hlib.Bool(r.clientGone), hlib.Bool(r.idleAtSd), hlib.Bool(r.closedPass))
+		res[i] = fmt.Sprintf("(mkCRes %s %s %s %s)", hlib.Bool(r.clientGone), hlib.Bool(r.idleAtSd), hlib.Bool(r.closedPass), hlib.Z(int64(r.doneMissed.Load())))
 	}
-	coq := fmt.Sprintf("(CRun (mkCfg %s %s) %s %s)", hlib.Bool(d.Deadlines), hlib.Bool(d.CloseOnShutdown), hlib.List(rn.blocks), hlib.List(res))
+	rn.noteSd()
+	coq := fmt.Sprintf("(CRun (mkCfg %s %s) %s %s %s)", hlib.Bool(d.Deadlines), hlib.Bool(d.CloseOnShutdown), hlib.Bool(rn.everFailed), hlib.List(rn.blocks), hlib.List(res))
 	// cleanup
 	if rn.cancel != nil {
 		rn.cancel()
@@ -769,6 +842,14 @@ func corpus() []desc {
 		{Class: "heldnew", Ops: ops("servestart acceptheld:1 shutdown releasenew finish")},
 		{Class: "heldnew", Ops: ops("servestart accept:1 finish acceptheld:1 shutdown releasenew finish")},
 		{Class: "heldnew", Ops: ops("servestart servestart accept:1 acceptheld:0 shutdown finish releasenew")},
+		// reuse of one Server: several Serve / Shutdown cycles, a request in flight in each shutdown (its Done channel must be closed by THAT
+		// shutdown: s.doneClosed is reset by the success branch), successful and timed-out calls mixed, shortcut calls (`s.ln == nil`)
+		{Class: "reuse", Ops: ops("servestart accept:1 shutdown finish servestart accept:1 shutdown finish")},
+		{Class: "reuse", Ops: ops("servestart accept:1 finish shutdown servestart accept:1 accept:1 finish shutdown finish servestart accept:1 shutdown finish")},
+		{Class: "reuse", Ops: ops("servestart accept:1 shutdown expire finish servestart accept:1 shutdown finish")},
+		{Class: "reuse", Deadlines: true, Ops: ops("servestart accept:1 shutdown finish servestart accept:1 shutdown expire finish servestart accept:1 shutdown finish")},
+		{Class: "reuse", Ops: ops("shutdown servestart accept:1 shutdown finish shutdown shutdown servestart accept:1 finish shutdown")},
+		{Class: "reuse", CloseOnShutdown: true, Ops: ops("servestart servestart accept:1 accept:1 shutdown finish finish servestart accept:2 shutdown finish finish")},
 		// the context expires while a handler runs: an error is returned, the stop flag is reset, the connection goes on
 		{Class: "expire", Ops: ops("servestart accept:1 shutdown expire finish send finish:close")},
 		// clients that go away
@@ -798,7 +879,7 @@ func corpus() []desc {
 }
 
 func gen(r *rand.Rand, i int) desc {
-	class := hlib.Pick(r, []string{"basic", "basic", "basic", "client", "expire", "holdtop", "heldread", "pipelined", "pipetop", "heldnew"})
+	class := hlib.Pick(r, []string{"basic", "basic", "basic", "client", "expire", "holdtop", "heldread", "pipelined", "pipetop", "heldnew", "reuse", "reuse"})
 	d := desc{Class: class, Deadlines: r.Intn(3) == 0, CloseOnShutdown: r.Intn(4) == 0}
 	if class == "holdtop" || class == "pipetop" {
 		d.Deadlines = true
@@ -852,6 +933,17 @@ func gen(r *rand.Rand, i int) desc {
 				d.Ops = append(d.Ops, op{K: "releasetop", C: r.Intn(4)})
 			case "expire":
 				d.Ops = append(d.Ops, op{K: "expire"})
+			case "reuse":
+				switch r.Intn(4) {
+				case 0:
+					d.Ops = append(d.Ops, op{K: "servestart"})
+				case 1:
+					d.Ops = append(d.Ops, op{K: "shutdown"})
+				case 2:
+					d.Ops = append(d.Ops, op{K: "expire"})
+				default:
+					d.Ops = append(d.Ops, op{K: "accept", N: 1, C: r.Intn(2)})
+				}
 			case "heldnew":
 				if r.Intn(2) == 0 {
 					d.Ops = append(d.Ops, op{K: "acceptheld", N: r.Intn(2), C: r.Intn(2)})
